@@ -1,10 +1,20 @@
 #!/bin/sh
-# Builds the harness once (warms the Go build cache) from files on disk only.
+# Builds the framework once from files on disk only (warms the Go build cache, including the -race variant of the
+# standard library used by the C17 race pass). Nothing is fetched.
 export GOFLAGS=-mod=mod GOPROXY=off GOSUMDB=off GOTOOLCHAIN=local
 set -e
-mkdir -p /verif/.build /verif/evidence /verif/replays
-cp /repo/go.sum /verif/harness/go.sum
-cd /verif/harness
-go build -tags verif -o /verif/.build/vcheck.setup ./cmd/vcheck
-rm -f /verif/.build/vcheck.setup
+ROOT=$(cd "$(dirname "$0")" && pwd)
+mkdir -p $ROOT/.build $ROOT/evidence $ROOT/replays
+cp /repo/go.sum $ROOT/harness/go.sum
+cd $ROOT/harness
+go build -tags verif -o $ROOT/.build/vcheck.setup ./cmd/vcheck
+rm -f $ROOT/.build/vcheck.setup
+go build -race -tags verif -o $ROOT/.build/vrace.setup ./cmd/vrace
+rm -f $ROOT/.build/vrace.setup
+cd $ROOT/instr
+go build -o $ROOT/.build/vinstr.setup .
+SCR=$(mktemp -d /tmp/verif-setup.XXXXXX)
+$ROOT/.build/vinstr.setup -dir /repo -out $SCR/ov > /dev/null
+(cd $ROOT/harness && go build -tags "verif c17" -overlay $SCR/ov/overlay.json -o $SCR/vsched ./cmd/vsched)
+rm -rf $SCR $ROOT/.build/vinstr.setup
 echo setup ok
